@@ -401,6 +401,44 @@ func resolveRoles(p *Prog) *Roles {
 		}
 		return false
 	}
+	sendFns := map[*Func]bool{}
+	for _, f := range filterPkg(p.funcsCalling(kNodeSend), modPath) {
+		sendFns[f] = true
+	}
+	var reachesSend func(f *Func, depth int) bool
+	reachesSend = func(f *Func, depth int) bool {
+		if sendFns[f] {
+			return true
+		}
+		if depth == 0 {
+			return false
+		}
+		for _, cs := range p.calls(f) {
+			if g := p.byObj[cs.Callee.Key]; g != nil && g.Lib && g != f && reachesSend(g, depth-1) {
+				return true
+			}
+		}
+		return false
+	}
+	// the step is the deepest function, on the call chain from the dispatcher goroutine, whose own call tree still
+	// contains both the Dequeue and the hand-off (Node.Send): helpers above it (a "dispatch pass") or below it (a
+	// "dequeue next") do not change which function that is
+	var deepest func(g *Func, depth int) *Func
+	deepest = func(g *Func, depth int) *Func {
+		if !(reaches(g, 4) && reachesSend(g, 4)) {
+			return nil
+		}
+		if depth > 0 {
+			for _, cs := range p.calls(g) {
+				if h := p.byObj[cs.Callee.Key]; h != nil && h.Lib && h != g {
+					if d := deepest(h, depth-1); d != nil {
+						return d
+					}
+				}
+			}
+		}
+		return g
+	}
 	var steps, dispLits []*Func
 	for _, f := range p.pkgFuncs(modPath) {
 		if f.Body == nil {
@@ -417,9 +455,11 @@ func resolveRoles(p *Prog) *Roles {
 			}
 			L := p.byLit[lit]
 			for _, cs := range p.calls(L) {
-				if g := p.byObj[cs.Callee.Key]; g != nil && g.Lib && reaches(g, 4) {
-					steps = appendUnique(steps, g)
-					dispLits = appendUnique(dispLits, L)
+				if g := p.byObj[cs.Callee.Key]; g != nil && g.Lib {
+					if d := deepest(g, 3); d != nil {
+						steps = appendUnique(steps, d)
+						dispLits = appendUnique(dispLits, L)
+					}
 				}
 			}
 			return true
@@ -434,6 +474,21 @@ func resolveRoles(p *Prog) *Roles {
 			for _, a := range cs.Call.Args {
 				if lit, ok := ast.Unparen(a).(*ast.FuncLit); ok {
 					completions = append(completions, p.byLit[lit])
+				} else if id, ok := ast.Unparen(a).(*ast.Ident); ok {
+					// a local bound once to a function literal
+					if obj := cs.In.Info().ObjectOf(id); obj != nil {
+						var lits []*ast.FuncLit
+						all, n := assignedOnlyFrom(cs.In, obj, func(rhs ast.Expr, idx, cnt int) bool {
+							l, ok := ast.Unparen(rhs).(*ast.FuncLit)
+							if ok {
+								lits = append(lits, l)
+							}
+							return ok
+						})
+						if all && n == 1 && len(lits) == 1 && p.byLit[lits[0]] != nil {
+							completions = append(completions, p.byLit[lits[0]])
+						}
+					}
 				}
 			}
 		}
@@ -564,11 +619,27 @@ func resolveRoles(p *Prog) *Roles {
 	// freeNode: called from the completion callback and releases the node
 	if r.Completion != nil {
 		var free []*Func
-		for _, cs := range p.calls(r.Completion) {
-			if f := p.byObj[cs.Callee.Key]; f != nil && (p.containsCall(f, kPushNode) || p.containsCall(f, kPoolPut)) {
+		var walk func(f *Func, depth int)
+		seenF := map[*Func]bool{}
+		walk = func(f *Func, depth int) {
+			if seenF[f] {
+				return
+			}
+			seenF[f] = true
+			if f != r.Completion && (p.containsCall(f, kPushNode) || p.containsCall(f, kPoolPut)) {
 				free = appendUnique(free, f)
+				return
+			}
+			if depth == 0 {
+				return
+			}
+			for _, cs := range p.calls(f) {
+				if g := p.byObj[cs.Callee.Key]; g != nil && g.Lib {
+					walk(g, depth-1)
+				}
 			}
 		}
+		walk(r.Completion, 3)
 		if len(free) == 0 && (p.containsCall(r.Completion, kPushNode) || p.containsCall(r.Completion, kPoolPut)) {
 			free = append(free, r.Completion)
 		}
